@@ -760,7 +760,9 @@ static int _parse_inline(qaconf_t *qaconf, FILE *fp, uint8_t flags,
                 }
             }
             *wp2 = '\0';
-            wp2++;
+            if (doneparsing == false) {
+                wp2++;
+            }
 
             // Check quotations has paired.
             if (qtmark > 0) {
